@@ -271,16 +271,23 @@ class UndefinedName(str):
         return str(self)
 
 
+def _source_order(name):
+    # type: (Name | UndefinedName) -> loc_t
+    return getattr(name, 'declared_at', (0, 0))  # type: ignore[no-any-return]
+
+
 class MultiName(object):
     def __init__(self, names):
         # type: (list[Name | UndefinedName]) -> None
-        allnames = []
+        allnames = []  # type: list[Name | UndefinedName]
+        seen = set()
         for n in names:
-            if isinstance(n, MultiName):
-                allnames.extend(n.alt_names)
-            else:
-                allnames.append(n)
-        self.alt_names = list(set(allnames))
+            for a in (n.alt_names if isinstance(n, MultiName) else [n]):
+                if a not in seen:
+                    seen.add(a)
+                    allnames.append(a)
+        # alternatives go in source order, whatever order the flows were joined in
+        self.alt_names = sorted(allnames, key=_source_order)
         self.name = self.alt_names[0].name
 
     def __repr__(self):  # type: () -> str
